@@ -161,6 +161,30 @@ fn check<C: Cm>(case: &Case) -> PResult {
             let mut ext2 = Seq::<C>::with_capacity(3);
             ext2.extend(syms.iter().copied());
             check_symbols(&sy, &ext2, codes, &format!("extend/{n}"))?;
+            // iterators whose size_hint is not exact (adaptors that drop items, unknown upper bounds)
+            let drop = codes.first().copied().unwrap_or(m.codes()[0]);
+            let kept: Vec<u8> = codes.iter().copied().filter(|c| *c != drop).collect();
+            let f1: Seq<C> = syms.iter().copied().filter(|s| s.to_bits() != drop).collect();
+            check_symbols(&sy, &f1, &kept, &format!("collect_filter/{n}"))?;
+            let f2: Seq<C> = bytes.iter().filter_map(|b| C::try_from_ascii(*b)).collect();
+            check_symbols(&sy, &f2, codes, &format!("collect_filter_map/{n}"))?;
+            let cut = codes.iter().position(|c| *c != drop).unwrap_or(codes.len());
+            let f3: Seq<C> = syms.iter().copied().skip_while(|s| s.to_bits() == drop).collect();
+            check_symbols(&sy, &f3, &codes[cut..], &format!("collect_skip_while/{n}"))?;
+            let f4: Seq<C> = syms.iter().copied().take_while(|s| s.to_bits() == drop).collect();
+            check_symbols(&sy, &f4, &codes[..cut], &format!("collect_take_while/{n}"))?;
+            let f5: Seq<C> = syms.chunks(3).flat_map(|c| c.iter().copied()).collect();
+            check_symbols(&sy, &f5, codes, &format!("collect_flat_map/{n}"))?;
+            let mut e3 = Seq::<C>::new();
+            e3.extend(syms.iter().copied().filter(|s| s.to_bits() != drop));
+            e3.extend(syms.iter().copied().filter(|s| s.to_bits() == drop));
+            let mut both = kept.clone();
+            both.extend(codes.iter().copied().filter(|c| *c == drop));
+            check_symbols(&sy, &e3, &both, &format!("extend_filter/{n}"))?;
+            let mut e4 = Seq::<C>::new();
+            Extend::extend(&mut e4, syms.iter().copied().step_by(2));
+            let stepped: Vec<u8> = codes.iter().copied().step_by(2).collect();
+            check_symbols(&sy, &e4, &stepped, &format!("extend_step_by/{n}"))?;
             let mut pushed = Seq::<C>::default();
             for x in &syms {
                 pushed.push(*x);
@@ -187,6 +211,17 @@ pub fn run(ctx: &mut Ctx) {
     for id in ALL_CODECS {
         let cases = ctx.cases(3000, 15);
         ctx.forall(&format!("parse/{}", id.name()), cases, case_strategy(id, max), dispatch);
+    }
+    // long inputs: thresholds at which bulk / block paths would switch on
+    for id in ALL_CODECS {
+        let m = id.model();
+        let th = ctx.thorough();
+        let cases = ctx.cases(6, 8);
+        let acc = m.accepted_bytes();
+        let st = (gen::long_len(th), prop_oneof![2 => Just(0usize), 1 => Just(1usize)])
+            .prop_flat_map(move |(n, nbad)| (vec(select(acc.clone()), n), vec((any::<u16>(), bad_char(m)), nbad)))
+            .prop_map(move |(body, bad)| Case { codec: id, body, bad });
+        ctx.forall(&format!("parse_long/{}", id.name()), cases, st, dispatch);
     }
     // every single byte as a one-symbol string, and behind / in front of one valid symbol (exhaustive)
     let cells: Vec<Case> = ALL_CODECS
